@@ -134,7 +134,11 @@ def bytes_to_human(value, prec=2):
     return f'{round(value / divisor, prec):g}{unit}'
 
 
-def guess_type(value: str) -> Any:
+def guess_type(value: Any) -> Any:
+    if not isinstance(value, str):
+        # Already typed, e.g. a native integer or boolean from the TOML file
+        return value
+
     if value.lower() in {'none', 'false', 'true'}:
         value = value.title()
 
